@@ -54,6 +54,8 @@ pub fn faults() -> Vec<(&'static str, &'static str)> {
         ("arity-few-rest", "(fr)"),
         ("arity-lambda", "((lambda (a b) a) 1)"),
         ("arity-lambda", "((lambda (a) a) 1 2)"),
+        ("arity-lambda", "((lambda () 1) 2)"),
+        ("arity-lambda", "((lambda () (note 2 'ran) 1) 2 3)"),
         // the faulty call is a tail call of a later round of a trampoline run (self, mutual, new closure)
         ("arity-self-tail-later-round", "(sl-many 2 0)"),
         ("arity-self-tail-later-round", "(sl-few 2 0)"),
@@ -74,6 +76,11 @@ pub fn faults() -> Vec<(&'static str, &'static str)> {
         ("unbound-read", "(+ 1 nosuchvar)"),
         ("unbound-read", "(nosuchproc 1)"),
         ("unbound-read", "(f1 nosuchvar)"),
+        // a bare reference whose value is not used still has to be evaluated
+        ("unbound-read", "(begin nosuchvar 1)"),
+        ("unbound-read", "((lambda (a) nosuchvar a) 1)"),
+        ("unbound-read", "(let ((a 1)) nosuchvar a)"),
+        ("unbound-read", "(when #t nosuchvar 1)"),
         ("unbound-set", "(set! nosuchvar 1)"),
         ("wrong-type", "(car 5)"),
         ("wrong-type", "(cdr '())"),
